@@ -129,9 +129,9 @@ size_t jls_buf_length(struct jls_buf_s * self) {
 int32_t jls_buf_copy(struct jls_buf_s * self, const struct jls_buf_s * src) {
     ROE(jls_buf_realloc(self, src->length));
     memcpy(self->start, src->start, src->length);
-    self->cur = 0;
+    self->cur = self->start;
     self->length = src->length;
-    self->end = self->cur + self->length;
+    self->end = self->start + self->length;
     return 0;
 }
 
